@@ -727,3 +727,11 @@ Definition render (fuel : nat) (pre : list name) (s : state) (n : name) : rout :
           exec fuel pre s 0 (FMain t (match e_parents e with r :: _ => r | [] => t end))
       end
   end.
+
+(* fuel that suffices for every render of an accepted set (RegistryProofs.render_fuel_suffices):
+   (component depth 0..20) x (include rank of the VM template) x (rank in its block graph) *)
+Definition max_blk_nodes (s : state) : nat :=
+  list_max (map (fun ne : name * entry => length (blk_nodes (e_lineage (snd ne)))) (st_tpls s)).
+Definition frame_span (s : state) : nat :=
+  (length (st_tpls s) + 2) * (max_blk_nodes s + 3) + 1.
+Definition render_fuel (s : state) : nat := S (S max_comp_depth * frame_span s).
